@@ -413,6 +413,12 @@ def ev_Call(n, c):
             return list(ev(n.args[0], c))[ev(n.args[1], c)]
         if f == "cls_is":
             return type(ev(n.args[0], c)).__name__ == n.args[1].value
+        if f == "dict_wf":
+            return isinstance(ev(n.args[0], c), dict)
+        if f == "dict_pos":
+            return list(ev(n.args[0], c)).index(ev(n.args[1], c))
+        if f == "ghostfn":
+            raise NotEvaluable("ghost function (existential witness)")
         if f == "was":
             o = ev(n.args[0], c)
             twin = c.memo.get(id(o)) if getattr(c, "memo", None) else None
